@@ -17,6 +17,7 @@ import (
 	"strconv"
 	"strings"
 	"sync"
+	"sync/atomic"
 	"time"
 
 	"verifharness/hx"
@@ -29,8 +30,6 @@ import (
 
 // realms of the probe's view objects: index 3 is a second object of realm 01, index 5 a second root-realm view
 var probeRealms = []string{"", "\x01", "\x01\xff", "\x01", "\x02", ""}
-
-var probeKinds = []string{"get", "has", "set", "del", "delp", "clear", "iter", "iterk", "commit", "mkview", "flush"}
 
 // genProbePlan: header + one line per call: `x p <goroutine> <view> <kind> <hexkey>`; the key is relative to the view.
 func genProbePlan(rng *hx.Rng, wrap, g, perG, rounds int) []string {
@@ -62,12 +61,15 @@ func genProbePlan(rng *hx.Rng, wrap, g, perG, rounds int) []string {
 				kind = "iter"
 			case x < 88:
 				kind = "iterk"
-			case x < 95:
+			case x < 93:
 				kind = "commit"
-			case x < 98:
+			case x < 96:
 				kind = "mkview"
-			default:
+			case x < 97:
 				kind = "flush"
+			default:
+				// ONE batch object per view shared by all goroutines: its mutex is all that protects its private maps
+				kind = hx.Pick(rng, []string{"bset", "bset", "bdel", "bcommit", "bcancel"})
 			}
 			key := []byte{byte(rng.Intn(3)), byte(rng.Intn(24))}
 			if kind == "delp" || kind == "iter" || kind == "iterk" {
@@ -86,7 +88,7 @@ type probeCall struct {
 	key  []byte
 }
 
-// probeChild runs the plan of the given file and exits: 0 = ran to the end, 3 = did not finish within the watchdog time.
+// probeChild runs the plan of the given file and exits: 0 = ran to the end, 3 = hang (no call completed for 20 s).
 func probeChild(planFile string) {
 	if runtime.GOMAXPROCS(0) < 4 {
 		runtime.GOMAXPROCS(4)
@@ -141,7 +143,14 @@ func probeChild(planFile string) {
 		}
 		views[i] = v
 	}
+	shared := make([]kvstore.BatchedMutations, len(views))
+	for i, v := range views {
+		if shared[i], err = v.Batched(); err != nil {
+			panic(err)
+		}
+	}
 	start := make(chan struct{})
+	var progress atomic.Int64
 	var wg sync.WaitGroup
 	for g, calls := range plans {
 		wg.Add(1)
@@ -187,7 +196,16 @@ func probeChild(planFile string) {
 						}
 					case "flush":
 						_ = v.Flush()
+					case "bset":
+						_ = shared[c.view].Set(c.key, val)
+					case "bdel":
+						_ = shared[c.view].Delete(c.key)
+					case "bcommit":
+						_ = shared[c.view].Commit()
+					case "bcancel":
+						shared[c.view].Cancel()
 					}
+					progress.Add(1)
 				}
 			}
 		}(g, calls)
@@ -195,15 +213,27 @@ func probeChild(planFile string) {
 	done := make(chan struct{})
 	go func() { wg.Wait(); close(done) }()
 	close(start)
-	select {
-	case <-done:
-		os.Exit(0)
-	case <-time.After(20 * time.Second):
-		fmt.Fprintln(os.Stderr, "PROBE-HANG: the goroutines of the plan did not finish within 20 s")
-		buf := make([]byte, 1<<16)
-		n := runtime.Stack(buf, true)
-		os.Stderr.Write(buf[:n])
-		os.Exit(3)
+	// watchdog by progress, not by wall-clock time (the machine may be heavily loaded): a hang is 20 s without a single
+	// completed call
+	last, idle := int64(-1), 0
+	for {
+		select {
+		case <-done:
+			os.Exit(0)
+		case <-time.After(5 * time.Second):
+		}
+		if now := progress.Load(); now != last {
+			last, idle = now, 0
+
+			continue
+		}
+		if idle++; idle >= 4 {
+			fmt.Fprintf(os.Stderr, "PROBE-HANG: no call of the plan completed for 20 s (%d completed so far), some never returned\n", last)
+			buf := make([]byte, 1<<16)
+			n := runtime.Stack(buf, true)
+			os.Stderr.Write(buf[:n])
+			os.Exit(3)
+		}
 	}
 }
 
